@@ -55,13 +55,17 @@ func (r *Router) route(s Sender, p stanza.Packet) {
 	}
 	iq, isIq := p.(*stanza.IQ)
 	if isIq {
-		r.IQResultRouteLock.RLock()
+		// Look the pending request up and unregister it in one step, so that of two
+		// responses with the same id only the first one is delivered to the caller.
+		r.IQResultRouteLock.Lock()
 		route, ok := r.IQResultRoutes[iq.Id]
-		r.IQResultRouteLock.RUnlock()
 		if ok {
-			r.IQResultRouteLock.Lock()
 			delete(r.IQResultRoutes, iq.Id)
-			r.IQResultRouteLock.Unlock()
+		}
+		r.IQResultRouteLock.Unlock()
+		if ok {
+			// The channel has room for the single response: this never blocks, even if
+			// the caller has stopped listening.
 			route.result <- *iq
 			close(route.result)
 			return
@@ -187,7 +191,7 @@ type IQResultRoute struct {
 func NewIQResultRoute(ctx context.Context) *IQResultRoute {
 	return &IQResultRoute{
 		context: ctx,
-		result:  make(chan stanza.IQ),
+		result:  make(chan stanza.IQ, 1),
 	}
 }
 
